@@ -143,8 +143,9 @@ def prog(k: int, o1: int, t1: int, o2: int, t2: int, o3: int, t3: int, o4: int, 
                 check('C19.context_restores_time', tm() == before and swallowed is True, dict(info, now2=tm(), swallowed=swallowed))
             elif o == 10:       # push, move on in time, read, pop: the caches are as at the push (instance- and class-level generators)
                 assume(not pushed and tm() < 3)
-                pc1.cg
-                p.d
+                if t % 2 == 0:      # with or without a value cached before the push (an unread generator has none)
+                    pc1.cg
+                    p.d
                 saved = [(getattr(x, '_Dynamic_time', None), getattr(x, '_Dynamic_last', None)) for x in (g, gcls)]
                 t0 = tm()
                 p.param._state_push()
